@@ -1,10 +1,10 @@
 // body shared by drv_matmul_f1.cpp / drv_matmul_f2.cpp (fixed-size operands); not a stand-alone header
 namespace mm {
-#define FM_CASE(R, C) if (r == R && c == C) { build_FM1<MM_FIXED_ACT, R, C>(s, v); return true; }
-#define FV_CASE(N) if (n == N) { build_FV1<MM_FIXED_ACT, N>(s, v); return true; }
+#define FM_CASE(R, C) if (r == R && c == C) { build_FM1<double, MM_FIXED_ACT, R, C>(s, v); return true; }
+#define FV_CASE(N) if (n == N) { build_FV1<double, MM_FIXED_ACT, N>(s, v); return true; }
 bool MM_FIXED_FN(const Spec& s, XVisitor& v) {
   const Words& h = s.head;
-  if (h[0] != "FM" && h[0] != "FV") return false;
+  if ((h[0] != "FM" && h[0] != "FV") || s.flt) return false;
   if (h.size() < 3 || (h[1] != "a" && h[1] != "p")) throw BadOp();
   if ((h[1] == "a") != MM_FIXED_ACT) return false;
   if (h[0] == "FM") {
